@@ -56,7 +56,15 @@ class Ctx(object):
         self.cur_rule = None
 
     # -- bookkeeping
+    def _rn(self, name):
+        """a rule borrowed from another property's module reports under this property's name."""
+        rn = getattr(self, "rename", None)
+        if rn and name.startswith(rn[0]):
+            return rn[1] + name[len(rn[0]):]
+        return name
+
     def rule(self, name):
+        name = self._rn(name)
         self.cur_rule = name
         return self.rules.setdefault(name, {"obligations": 0, "discharged": 0,
                                             "exempted": 0, "samples": [], "distinct": set()})
@@ -86,7 +94,7 @@ class Ctx(object):
             stmt = norm(stmt)
         if len(stmt) > 160:
             stmt = stmt[:157] + "..."
-        f = Finding(self.prop, rule, func, stmt, msg, loc, path)
+        f = Finding(self.prop, self._rn(rule), func, stmt, msg, loc, path)
         self.findings.append(f)
         return f
 
